@@ -445,6 +445,14 @@ func scenarios(tier string, yield func(any) bool) {
 		modes = []Scn{{Mode: "echo"}, {Mode: "readk", K: 2}}
 		scripts = []string{"AB", "ABA", "ABAB", "AAB"}
 	}
+	if os.Getenv("VERIF_C09_SUBSET") == "smallchan" {
+		// built with every channel of the datagram loop shrunk to capacity 1 (overlay): a burst
+		// for one client fills its queue and parks the loop while another client's handler
+		// finishes - the capacities are implementation constants, no pattern of arrivals and
+		// completions may wedge the loop whatever they are
+		modes = []Scn{{Mode: "readk", K: 1}, {Mode: "readk", K: 2}, {Mode: "echo"}}
+		scripts = []string{"BAAA", "BAAAqA", "ABBB", "AABBB", "BAAAB", "ABAAqB"}
+	}
 	if os.Getenv("VERIF_C09_SUBSET") == "" {
 		// datagrams of every size up to the receive buffer reach the connection: the largest
 		for _, s := range []string{"L", "LA", "AL", "ALA"} {
@@ -453,7 +461,7 @@ func scenarios(tier string, yield func(any) bool) {
 			}
 		}
 	}
-	if os.Getenv("VERIF_C09_SUBSET") != "stream" {
+	if sub := os.Getenv("VERIF_C09_SUBSET"); sub != "stream" && sub != "smallchan" {
 		// a handler that leaves a datagram partly read and closes, then other clients' datagrams
 		// queue up before their handlers run (three clients)
 		for _, s := range []string{"AqBC", "AqBCA", "AABC", "AqBqC"} {
